@@ -160,12 +160,14 @@ def main(argv):
     shifted = []
     for k, a in enumerate(vs):
         try:
+            if a is None or a.utcoffset() is None:
+                raise ValueError("unset or naive value: nothing to shift")
             ref = model.build(specs[k], None) if specs[k]["form"] == "obj" else _dt.datetime(*model.observe_dt(a)[:7], tzinfo=_dt.timezone(
                 _dt.timedelta(microseconds=model.observe_dt(a)[7])))
             if ref.tzinfo is None:
                 ref = ref.replace(tzinfo=_dt.timezone.utc)
             other = ref.astimezone(_dt.timezone(_dt.timedelta(hours=5, minutes=45) if k % 2 else _dt.timedelta(hours=-9, seconds=-30)))
-        except (OverflowError, ValueError):
+        except Exception:  # noqa: BLE001 - no shifted twin for this value
             other = None
         shifted.append(other)
     cmp["eq_shifted_py"] = [guarded(lambda a=a, b=b: a == b) for a, b in zip(vs, shifted) if a is not None and b is not None]
